@@ -506,8 +506,8 @@ func cmdCheck(args []string) int {
 	}
 	dischargeAll(dir, s.decls, vcs, filter, timeout, 10)
 	// Second chance for obligations that no solver decided: a loaded machine (other checks, other
-	// processes) makes 1-3 s proofs run into the timeout. They are re-run three at a time with three
-	// times the budget; an obligation that is genuinely unprovable stays undecided and is reported.
+	// processes) makes 1-3 s proofs run into the timeout. At most 24 of them are re-run, four at a time, with
+	// three times the budget; an obligation that is genuinely unprovable stays undecided and is reported.
 	undecided := map[*Obligation]bool{}
 	for _, vc := range vcs {
 		for _, o := range vc.Obls {
@@ -516,12 +516,12 @@ func cmdCheck(args []string) int {
 			}
 		}
 	}
-	if n := len(undecided); n > 0 && n <= 60 {
+	if n := len(undecided); n > 0 && n <= 24 && os.Getenv("GOVC_NORETRY") == "" {
 		first := map[*Obligation]*SolveResult{}
 		for o := range undecided {
 			first[o] = o.Result
 		}
-		dischargeAll(dir, s.decls, vcs, func(o *Obligation) bool { return undecided[o] }, 3*timeout, 3)
+		dischargeAll(dir, s.decls, vcs, func(o *Obligation) bool { return undecided[o] }, 3*timeout, 4)
 		for o, r := range first {
 			if o.Result != nil && o.Result != r {
 				o.Result.Tried = append(append([]string{}, r.Tried...), append([]string{"(second attempt, 3x budget)"}, o.Result.Tried...)...)
